@@ -1,5 +1,6 @@
 use crate::report::Tier;
 
+pub mod c01;
 pub mod c02;
 pub mod c03;
 pub mod c04;
@@ -11,6 +12,7 @@ pub mod c14;
 
 pub fn dispatch(prop: &str, tier: Tier, replay: Option<String>) -> i32 {
     match prop {
+        "C01" => c01::run(tier, replay),
         "C02" => c02::run(tier, replay),
         "C03" => c03::run(tier, replay),
         "C04" => c04::run(tier, replay),
